@@ -121,7 +121,10 @@ EnumDecl(n, options, unspec, prefix) == [kind |-> "enum", name |-> n, options |-
 \* characters and a line break, non-ASCII inside and outside the basic plane); the harness concretises the atoms
 \* (two keys that differ in case only: any order the printer imposes has to be total)
 InfoKeys == << <<"delta", "quote">>, <<"alpha", "astral">>, <<"gamma", "ctl">>, <<"beta", "bmp">>, <<"epsilon", "plain">>, <<"Alpha", "upper">> >>
-ServiceDecl(n, basePath, methods) == [kind |-> "service", name |-> n, basePath |-> basePath, methods |-> methods]
+\* baseOut: the base path as it is emitted (":name" rewritten to "{snake_name}"); baseParams: the names of its parameters,
+\* which every method's request has to declare
+ServiceDecl(n, basePath, methods) == [kind |-> "service", name |-> n, basePath |-> basePath, methods |-> methods,
+                                      baseOut |-> basePath, baseParams |-> <<>>]
 Method(n, verb, path, request, hasResponse, response) ==
     [name |-> n, verb |-> verb, path |-> path, request |-> request, hasResponse |-> hasResponse, response |-> response]
 TopicDecl(n, tkind, messages) == [kind |-> "topic", name |-> n, tkind |-> tkind, messages |-> messages]
@@ -467,10 +470,13 @@ PathOf(shape) ==
       [] shape = "snake-param" -> [segs |-> <<Lit("things"), Param(pb)>>, params |-> <<pb>>]
       [] shape = "digit-param" -> [segs |-> <<Lit("things"), Param(pd)>>, params |-> <<pd>>]
 ParamFields(ps) == [i \in Idx(ps) |-> Plain(ps[i], Scalar("string"))]
-MethodChoices(owner, n) ==
-    LET nm == MethodName(owner, n + 1) IN
-    {[e |-> Method(nm, "GET", PathOf("lit").segs, <<>>, TRUE, <<>>), rich |-> 0, label |-> ""]}
-    \cup { [e |-> Method(nm, v, PathOf(sh).segs, ParamFields(PathOf(sh).params), rs, <<>>), rich |-> 1,
+MethodChoices(svc, n) ==
+    LET owner == svc.name
+        nm == MethodName(owner, n + 1)
+        \* the parameters of the service's base path come first in every request (unless the method's own path names them)
+        withBase(ps) == svc.baseParams \o SelectSeq(ps, LAMBDA x : \A i \in 1..Len(svc.baseParams) : svc.baseParams[i] # x) IN
+    {[e |-> Method(nm, "GET", PathOf("lit").segs, ParamFields(withBase(<<>>)), TRUE, <<>>), rich |-> 0, label |-> ""]}
+    \cup { [e |-> Method(nm, v, PathOf(sh).segs, ParamFields(withBase(PathOf(sh).params)), rs, <<>>), rich |-> 1,
             label |-> "method-" \o v \o "/" \o sh \o (IF rs THEN "" ELSE "/no-response")]
            : v \in (IF Breadth = "full" THEN Verbs ELSE {"GET", "POST"}),
              sh \in (IF Breadth = "full" THEN PathShapes ELSE {"lit", "two-params", "digit-param"}), rs \in BOOLEAN }
@@ -498,6 +504,10 @@ DeclChoices(b, c, n) ==
              [e |-> [EnumDecl(nm, <<"FIRST">>, FALSE, "") EXCEPT !.info = InfoKeys], rich |-> 1, label |-> "enum-option-info"],
              [e |-> ServiceDecl(nm, "/" \o ShortOf(pk.name) \o "/v1", <<>>), rich |-> 1, label |-> "service"],
              [e |-> ServiceDecl(nm, "", <<>>), rich |-> 1, label |-> "service-no-basepath"],
+             \* R "Services": path parameters may sit in the basePath; they are rewritten like those of the method's own path
+             [e |-> [ServiceDecl(nm, "/" \o ShortOf(pk.name) \o "/v1/:fooId", <<>>)
+                       EXCEPT !.baseOut = "/" \o ShortOf(pk.name) \o "/v1/{foo_id}", !.baseParams = <<Name(<<"foo", "id">>, "camel")>>],
+              rich |-> 1, label |-> "service-basepath-param"],
              \* R "Topics": publish / reqres / upsert
              [e |-> TopicDecl(nm, "publish", <<Message(MessageName(nm, 1), <<>>)>>), rich |-> 1, label |-> "topic-publish"],
              [e |-> TopicDecl(nm, "reqres", <<Message(Name(<<"request">>, "upper"), <<>>), Message(Name(<<"reply">>, "upper"), <<>>)>>), rich |-> 1, label |-> "topic-reqres"],
@@ -537,7 +547,7 @@ Choices(b, c) ==
             IF n < MaxFields
             THEN LET have == { GetNode(b, c.path)[c.list][i] : i \in 1..n } IN { x \in EnumOptionChoices(n) : x.e \notin have }
             ELSE {}
-      [] c.ctx = "service" -> IF n < MaxFields THEN MethodChoices(GetNode(b, c.path).name, n) ELSE {}
+      [] c.ctx = "service" -> IF n < MaxFields THEN MethodChoices(GetNode(b, c.path), n) ELSE {}
       [] c.ctx = "topic" -> IF n < MaxFields THEN TopicMessageChoices(GetNode(b, c.path).name, n) ELSE {}
       [] c.ctx = "nest" -> IF n < 1 THEN NestChoices(n) ELSE {}
 
